@@ -82,9 +82,9 @@ def _decode(ctx, out):
                     i += 1
                 t2 = cells[i]
                 i += 1
-                ents.append((SymStr(hdr), t1.val, t2.val, SymStr(hdr2)))
+                ents.append((SymStr(hdr), t1.val, t2.val, SymStr(hdr2), _spelled_ok(t1) & _spelled_ok(t2)))
             else:
-                ents.append((SymStr(hdr), t1.val, t1.val, SymStr(hdr)))
+                ents.append((SymStr(hdr), t1.val, t1.val, SymStr(hdr), _spelled_ok(t1)))
             assert cells[i] == '"', 'unterminated entry'
             i += 1
         return ents
@@ -92,10 +92,24 @@ def _decode(ctx, out):
     for m in re.finditer(r'"([^"]*?)(\d{4,})(?: to ([^"]*?)(\d{4,}))?"', text):
         h1, a, h2, b = m.group(1), m.group(2), m.group(3), m.group(4)
         if b is None:
-            ents.append((h1, int(a), int(a), h1))
+            ents.append((h1, int(a), int(a), h1, a == '%04d' % int(a)))
         else:
-            ents.append((h1, int(a), int(b), h2))
+            ents.append((h1, int(a), int(b), h2, a == '%04d' % int(a) and b == '%04d' % int(b)))
     return ents
+
+
+def _spelled_ok(tok):
+    """the printed number is the zero-padded 4-digit spelling of its value ('{:04d}'): decided from the format spec of the token"""
+    import re as _re
+    m = _re.fullmatch(r'0(\d+)d', tok.spec or '')
+    if not m:
+        return False
+    n = int(m.group(1))
+    if n == 4:
+        return tok.val >= 0
+    if n < 4:
+        return tok.val >= 1000
+    return tok.val >= 10 ** (n - 1)
 
 
 def _hdr_of(ctx, pre, delim):
@@ -130,14 +144,15 @@ def h_range(ctx, shapes, kind, fmt):
         hdr = _hdr_of(ctx, pre, dl)
         v = _val(ctx, dig)
         found = False
-        for (h1, a, b, h2) in ents:
+        for (h1, a, b, h2, _ok) in ents:
             c = (h1 == hdr) & (h2 == hdr) & (a <= v) & (v <= b) if ctx.is_sym() else (h1 == hdr and h2 == hdr and a <= v <= b)
             found = c if found is False else (found | c)
         ctx.true('id %d is denoted by the output' % k, found)
         ctx.true('id %d keeps its spelling (digits already in the 4-digit zero-padded form), else it must be rejected' % k,
                  _canonical(ctx, dig))
     # (2) nothing else is denoted: each entry covers exactly as many distinct inputs as it spans
-    for e, (h1, a, b, h2) in enumerate(ents):
+    for e, (h1, a, b, h2, ok) in enumerate(ents):
+        ctx.true('entry %d: numbers spelled in the zero-padded 4-digit form the ids use' % e, ok)
         ctx.true('entry %d: one prefix on both ends of a range' % e, h1 == h2)
         ctx.true('entry %d: range ascending' % e, a <= b)
         distinct = []
